@@ -307,6 +307,7 @@ where
     // actor descriptions + the log of the initial sends (real on_start of every actor)
     let mut actors_sx = Vec::new();
     let mut log0: Vec<String> = Vec::new();
+    let mut sends0: Vec<String> = Vec::new();
     for (i, a) in model.actors.iter().enumerate() {
         let mut o = AOut::new();
         let _ = a.on_start(Id::from(i), &mut o);
@@ -315,7 +316,10 @@ where
         } else {
             actors_sx.push(format!("(c {} {})", d.clients[i - d.servers], d.servers));
             for c in o.iter() {
-                if let Command::Send(_, m) = c { log0.push(format!("(send {} {})", i, m_sx(&m.view()))); }
+                if let Command::Send(dst, m) = c {
+                    log0.push(format!("(send {} {})", i, m_sx(&m.view())));
+                    sends0.push(format!("({} {} {})", i, usize::from(*dst), m_sx(&m.view())));
+                }
             }
         }
     }
@@ -325,19 +329,19 @@ where
     // states are identified as the checkers do: by the hash of the state
     let fp = |s: &ActorModelState<A, H>| { use std::hash::Hasher; let mut h = std::collections::hash_map::DefaultHasher::new(); s.hash(&mut h); h.finish() };
     let mut seen: HashSet<u64> = HashSet::new();
-    let mut queue: VecDeque<(ActorModelState<A, H>, Vec<String>, Vec<String>)> = VecDeque::new();
+    let mut queue: VecDeque<(ActorModelState<A, H>, Vec<String>, Vec<String>, Vec<String>)> = VecDeque::new();
     for s in init {
-        if seen.insert(fp(&s)) { queue.push_back((s, vec![], log0.clone())); }
+        if seen.insert(fp(&s)) { queue.push_back((s, vec![], log0.clone(), sends0.clone())); }
     }
     let mut visited = 0usize;
-    while let Some((s, path, log)) = queue.pop_front() {
+    while let Some((s, path, log, sends)) = queue.pop_front() {
         visited += 1;
         // compare this state with the model and feed the oracle
         let clients = srh::sx::list((d.servers..n).map(|i| {
             let (aw, oc) = s.actor_states[i].client().unwrap();
             format!("({} {} {})", i, srh::sx::opt(&aw, |x| x.to_string()), oc)
         }));
-        out.m(&format!("{} {}", head, srh::sx::list(path.clone())), &format!("clients={} ;; dbg={:?}", clients, s.history));
+        out.m(&format!("{} {}", head, srh::sx::list(path.clone())), &format!("clients={} ;; sends={} ;; dbg={:?}", clients, srh::sx::list(sends.clone()), s.history));
         let (valid, content) = content_of(&s.history, wo, lin);
         if oracle {
             out.o(&format!("o-c18 {} {} {} {}", srh::sx::b(wo), srh::sx::list(log.clone()), srh::sx::b(valid), content));
@@ -353,6 +357,7 @@ where
         for a in actions {
             // describe the action for the model (environment outputs spelled out) and extend the log
             let mut log2 = log.clone();
+            let mut sends2 = sends.clone();
             let act_sx = match &a {
                 ActorModelAction::Deliver { src, dst, msg } => {
                     let di = usize::from(*dst);
@@ -364,7 +369,10 @@ where
                         if changed {
                             log2.push(format!("(acc {} {})", di, m_sx(&msg.view())));
                             for c in o.iter() {
-                                if let Command::Send(_, m) = c { log2.push(format!("(send {} {})", di, m_sx(&m.view()))); }
+                                if let Command::Send(d2, m) = c {
+                                    log2.push(format!("(send {} {})", di, m_sx(&m.view())));
+                                    sends2.push(format!("({} {} {})", di, usize::from(*d2), m_sx(&m.view())));
+                                }
                             }
                         }
                         format!("(dc {} {})", di, m_sx(&msg.view()))
@@ -400,7 +408,7 @@ where
                         ActorModelAction::Timeout(..) => out.stat("server-timeout"),
                         _ => out.stat("drop"),
                     }
-                    if seen.insert(fp(&s2)) { queue.push_back((s2, path2, log2)); }
+                    if seen.insert(fp(&s2)) { queue.push_back((s2, path2, log2, sends2)); }
                 }
             }
         }
